@@ -11,7 +11,8 @@ RECURSIVE DetAdd(_, _, _)
 DetAdd(inp, st, mi) ==
   IF mi > Len(inp.mods) THEN st
   ELSE LET m == inp.mods[mi]
-           e == AddModuleError(m)
+           e == IF AddModuleError(m) # "" THEN AddModuleError(m)
+                ELSE IF CHECKDUP /\ DupInModule(st.reg, m) THEN "duplicate-definition" ELSE ""
            paths == {Join(m.path, m.defs[i].name) : i \in DOMAIN m.defs}
                       \cup {Join(m.path, m.exts[i].name) : i \in DOMAIN m.exts}
        IN IF e # "" THEN [st EXCEPT !.phase = "failed", !.err = e]
